@@ -3,6 +3,7 @@ import RsyncModel.Properties.C04
 import RsyncModel.Properties.C12
 import RsyncModel.Properties.C14
 import RsyncModel.Properties.C15
+import RsyncModel.Session
 /-! # C01 — a successful sync leaves destination files byte-identical to the source
 
 Composition, per file, of the stages proved separately: the update rule decides whether the file is
@@ -120,5 +121,131 @@ theorem same_numbering {le : Flist.Str → Flist.Str → Prop} (anti : ∀ a b, 
 theorem same_list_options (o : Opts.St) :
     ∃ s', Opts.parse (Opts.serverOptions (Opts.acc o)) = .ok s' ∧ C14.flistOpts s' = C14.flistOpts o :=
   C14.flist_opts_agree o
+
+
+/-! ## the whole session: every selected regular file, for every prior state of the destination -/
+
+/-- how the sender transmits a requested file -/
+inductive Wire
+  | whole (chunks : List Bytes)              -- the receiver has no basis: literal chunks (`sendFile`)
+  | delta (old : Bytes) (blm1 cs : Nat)      -- delta against what the path held (`hashSearch`)
+
+def Wire.basis : Wire → Option Bytes
+  | .whole _ => none
+  | .delta old _ _ => some old
+
+/-- the bytes that arrive for one file: checksum header echo, tokens, whole-file hash -/
+def Wire.stream (Hs Hfile : Bytes → Bytes) (new : Bytes) : Wire → Bytes
+  | .whole chunks => encHead ⟨0, 0, 0, 0⟩ ++ (encToks (chunks.map Spec.ATok.lits) ++ (Hfile chunks.flatten ++ []))
+  | .delta old blm1 cs => encHead (honestHead blm1 cs old) ++
+      (encToks (senderTokens Hs (honestHead blm1 cs old) (honestSums Hs blm1 old) new) ++ (Hfile new ++ []))
+
+/-- what is assumed of a transmission: the literal chunks are the file, cut anywhere; the generator's
+block layout is one the sender accepts; the whole-file hash has 16 bytes; no truncated strong-hash
+collision between a block of the old content and a different window -/
+def Wire.Ok (Hs Hfile : Bytes → Bytes) (new : Bytes) : Wire → Prop
+  | .whole chunks => chunks.flatten = new ∧ (∀ c ∈ chunks, 0 < c.length ∧ c.length < 2147483648) ∧ (Hfile new).length = 16
+  | .delta old blm1 cs => cs ≤ maxCsLen ∧ blm1 + 1 ≤ maxBlockLen ∧ (honestHead blm1 cs old).count < 2147483648 ∧
+      (Hfile new).length = 16 ∧
+      (∀ (i : Nat) (q w : Bytes), (splitBlocks blm1 old)[i]? = some q → q.length = w.length →
+        (Hs q).take cs = (Hs w).take cs → q = w)
+
+theorem wire_commits (Hs Hfile : Bytes → Bytes) (new : Bytes) (w : Wire) (h : w.Ok Hs Hfile new) :
+    (recvData Hfile w.basis (w.stream Hs Hfile new)).1 = .committed new := by
+  cases w with
+  | whole chunks =>
+    obtain ⟨hf, hc, h16⟩ := h
+    subst hf
+    simp only [Wire.basis, Wire.stream]
+    rw [new_file_delivered Hfile chunks [] hc h16]
+  | delta old blm1 cs =>
+    obtain ⟨hcs, hbl, hcount, h16, nocoll⟩ := h
+    simp only [Wire.basis, Wire.stream]
+    rw [C02.roundtrip Hs Hfile blm1 cs old new [] hcs hbl hcount h16 nocoll]
+
+/-- a regular file of the source as the session sees it: destination path, content, its file-list
+entry, what the generator finds at the destination, how it travels -/
+structure Src where
+  p : Path
+  new : Bytes
+  e : Rx.Entry
+  d : Option Rx.Node
+  id : Nat
+  wire : Wire
+
+theorem nodup_map_inj (l : List Src) (h : (l.map (·.p)).Nodup) (a b : Src) (ha : a ∈ l) (hb : b ∈ l)
+    (hab : a.p = b.p) : a = b := by
+  induction l with
+  | nil => simp at ha
+  | cons x xs ih =>
+    simp only [List.map_cons, List.nodup_cons] at h
+    obtain ⟨hx, hxs⟩ := h
+    rcases List.mem_cons.mp ha with rfl | ha' <;> rcases List.mem_cons.mp hb with rfl | hb'
+    · rfl
+    · exact absurd (by rw [hab]; exact List.mem_map_of_mem hb') hx
+    · exact absurd (by rw [← hab]; exact List.mem_map_of_mem ha') hx
+    · exact ih hxs ha' hb'
+
+/-- the generator's decision (C12) -/
+def requested (o : Rx.Opts) (f : Src) : Bool := (Rx.genStep o f.e f.d).req != .none
+
+def jobsOf (Hs Hfile : Bytes → Bytes) (o : Rx.Opts) (fs : List Src) : List Session.Job :=
+  (fs.filter (requested o)).map fun f => ⟨f.p, f.id, f.wire.basis, f.wire.stream Hs Hfile f.new, []⟩
+
+/-- **A successful sync leaves every selected regular file byte-identical to the source, unless the
+update rule says it is up to date** — for any number of files, every prior state of the destination
+(`before` is arbitrary; the old content of a path is only the delta basis), every option set: after
+all events of the session, each file's path holds exactly the source's bytes, or the user-selected
+update rule (C12's `mustRequest`) does not ask for it and the path is exactly as it was.
+Hypotheses: distinct destination paths; the generator step does not fail; and for the files that
+are requested, `Wire.Ok` (block layout accepted, 16-byte whole-file hash, no strong-hash collision). -/
+theorem sync_correct (Hs Hfile : Bytes → Bytes) (o : Rx.Opts) (fs : List Src) (before : Path → Option Node)
+    (hnd : (fs.map (·.p)).Nodup) (hreg : ∀ f ∈ fs, f.e.kind = .reg)
+    (hok : ∀ f ∈ fs, (Rx.genStep o f.e f.d).res = .ok)
+    (hwire : ∀ f ∈ fs, requested o f = true → f.wire.Ok Hs Hfile f.new) :
+    ∀ f ∈ fs,
+      (run ⟨before, [], []⟩ (Session.sessionEvents Hfile (jobsOf Hs Hfile o fs))).dest f.p = some (.file f.new) ∨
+      (¬ C12.mustRequest o f.e f.d ∧
+        (run ⟨before, [], []⟩ (Session.sessionEvents Hfile (jobsOf Hs Hfile o fs))).dest f.p = before f.p) := by
+  intro f hf
+  have hpaths : ((jobsOf Hs Hfile o fs).map (·.p)) = (fs.filter (requested o)).map (·.p) := by
+    simp [jobsOf, List.map_map, Function.comp_def]
+  have hndj : ((jobsOf Hs Hfile o fs).map (·.p)).Nodup := by
+    rw [hpaths]
+    exact List.Nodup.sublist (List.Sublist.map _ List.filter_sublist) hnd
+  by_cases hr : requested o f = true
+  · left
+    have hmem : (⟨f.p, f.id, f.wire.basis, f.wire.stream Hs Hfile f.new, []⟩ : Session.Job) ∈ jobsOf Hs Hfile o fs := by
+      simp only [jobsOf, List.mem_map, List.mem_filter]
+      exact ⟨f, ⟨hf, hr⟩, rfl⟩
+    exact Session.session_delivers Hfile _ _ hndj _ hmem f.new (wire_commits Hs Hfile f.new f.wire (hwire f hf hr))
+  · right
+    have hreq : (Rx.genStep o f.e f.d).req = .none := by
+      simp only [requested, bne_iff_ne, ne_eq] at hr
+      exact Decidable.of_not_not hr
+    refine ⟨?_, ?_⟩
+    · intro hm
+      have := (C12.request_iff o f.e f.d (hreg f hf) (hok f hf)).mpr hm
+      exact this hreq
+    · apply Session.session_frame
+      intro j hj heq
+      simp only [jobsOf, List.mem_map, List.mem_filter] at hj
+      obtain ⟨g, ⟨hg, hgr⟩, rfl⟩ := hj
+      -- same path, distinct paths: g = f, but g is requested and f is not
+      have : g = f := by
+        exact nodup_map_inj fs hnd g f hg hf heq.symm
+      rw [this] at hgr
+      exact hr hgr
+
+/-- non-vacuity: two files, one new and one replaced over unrelated previous content, none up to date -/
+example : ∃ fs : List Src, fs.length = 2 ∧ (fs.map (·.p)).Nodup := ⟨[⟨[97], [1,2,3], ⟨.reg, 0o644, 3, 5, 0, 0, [], 0, []⟩, none, 1, .whole [[1,2,3]]⟩,
+  ⟨[98], [9], ⟨.reg, 0o644, 1, 5, 0, 0, [], 0, []⟩, none, 2, .delta [7,7] 699 16⟩], rfl, by decide⟩
+
+/-- non-vacuity of the transmission hypothesis: a file cut into two literal chunks -/
+example : (Wire.whole [[1, 2], [3]]).Ok (fun b => b) (fun _ => List.replicate 16 0) [1, 2, 3] := by
+  refine ⟨rfl, ?_, rfl⟩
+  intro c hc
+  simp at hc
+  rcases hc with rfl | rfl <;> simp
 
 end C01
